@@ -316,14 +316,79 @@ class ResultFlow:
                 out.add(bi)
         return out
 
-    def _err_arm_returns_err(self, body, cfg, err_target, switch_bb):
+    def _err_arm_returns_err(self, body, cfg, err_target, switch_bb, depth=0):
         errb = self._err_blocks(body)
         reach = cfg.reach(err_target, avoid=errb)
         for x in reach:
             if x in cfg.exits:
+                if depth == 0 and self._err_kept_in_variant(body, cfg, reach):
+                    return True
                 return False
         # no path to a normal return without an Err; diverging ends (panic) are not silent passes
         return True
+
+    def _err_kept_in_variant(self, body, cfg, reach):
+        """The Err arm does not return Err but *keeps* the error: its payload is stored in a variant of
+        a crate enum that is returned (`Err(e) => Self::InvalidPattern(e)`). That is not a swallow
+        provided every place in the crate that matches on this variant fails in turn (its arm returns
+        Err on every path); the obligation moves there."""
+        tainted = set()
+        stored = None
+        for _ in range(6):
+            grew = False
+            for x in sorted(reach):
+                for s in body.blocks[x]["stmts"]:
+                    if s["k"] != "assign" or s["lhs"]["p"]:
+                        continue
+                    rv = s["rv"]
+                    ops = []
+                    if rv["k"] in ("use", "cast"):
+                        ops = [rv["op"]]
+                    elif rv["k"] == "agg":
+                        ops = rv["ops"]
+                    hit = False
+                    for o in ops:
+                        pl = op_place(o)
+                        if pl is None:
+                            continue
+                        if pl["l"] in tainted or any(isinstance(e, dict) and str(e.get("dc")) == "Err" for e in pl["p"]):
+                            hit = True
+                    if hit and s["lhs"]["l"] not in tainted:
+                        tainted.add(s["lhs"]["l"])
+                        grew = True
+                        if rv["k"] == "agg" and rv.get("agg") == "adt" and (rv.get("path") or "").startswith("blockwatch::"):
+                            stored = (rv["path"], rv.get("vi"), str(rv.get("variant")))
+            if not grew:
+                break
+        if 0 not in tainted or stored is None:
+            return False
+        adt, vi, vname = stored
+        found = 0
+        for b2 in self.facts.bodies.values():
+            if b2.promoted is not None:
+                continue
+            for bi, j, s in b2.assigns():
+                rv = s["rv"]
+                if rv["k"] != "discr" or rv.get("adt") != adt:
+                    continue
+                dl = s["lhs"]["l"]
+                for bj, t in b2.terms():
+                    if t["k"] != "switch":
+                        continue
+                    pl = op_place(t["op"])
+                    if not pl or pl["l"] != dl or pl["p"]:
+                        continue
+                    arm = None
+                    for v, tg in zip(t["vals"], t["targets"]):
+                        if v == vi:
+                            arm = tg
+                    if arm is None:
+                        arm = t["otherwise"]
+                    from .cfg import cfg_of
+                    found += 1
+                    if not self._err_arm_returns_err(b2, cfg_of(b2), arm, bj, depth=1):
+                        return False
+        return found > 0
 
     # ------------------------------------------------------------------ parameter flows
     def param_flow(self, body, param, rest=()):
